@@ -11,6 +11,7 @@ import TdVerif.Model.C13Inplace
 import TdVerif.Lemmas.C13Inplace
 import TdVerif.Lemmas.C13Lazy
 import TdVerif.Lemmas.C13Install
+import TdVerif.Lemmas.C13Order
 
 namespace TdVerif.Props.C13
 open TdVerif.C13
@@ -372,6 +373,111 @@ theorem set_tensor_buffer_in_place_exact (md : Mod) (n : Name) (t out : Tn)
   · simp only [setTensorNative, hp, hb]
   · simp only [setTensorNative, hp, hb1]
     simp [dict_set_set_get md.buffers n (some out) (some t) hslot]
+
+/-- **swap_keeps_order** — all module graphs (shared submodules included): a `to_module` in which every leaf keeps the kind
+of the slot it is aimed at (a Parameter for a `_parameters` slot, a non-Parameter for a plain attribute, anything for a
+buffer: `KindOKTree`) leaves the key order of `_parameters` and of `_buffers` of *every* module unchanged — whatever
+subset of the entries the tensordict names, in whatever order it lists them. -/
+theorem swap_keeps_order (h h' : Heap) (m : MId) (p s : List (Name × PTree)) (hwf : HeapWF h) (hnd : LeafNodup p)
+    (hk : KindOKTree h m p) (hs : swap h m p = .ok (h', s)) (x : MId) : (h' x).keys2 = (h x).keys2 := by
+  obtain ⟨memo1, hrun⟩ := swap_inv hs
+  exact (swap_keys p h [(m, none)] m h' memo1 s hrun (by simp [find_cons]) hnd h hwf hk
+    (fun _ _ _ _ => rfl) (fun _ _ => rfl) (fun _ => rfl) x).1
+
+/-- the swap back of a kind-preserving swap is kind-preserving: what comes out of a slot has the kind of that slot -/
+theorem swap_back_kind_ok (h h' : Heap) (m : MId) (p s : List (Name × PTree)) (hwf : HeapWF h) (hnd : LeafNodup p)
+    (hk : KindOKTree h m p) (hs : swap h m p = .ok (h', s)) : KindOKTree h' m s := by
+  obtain ⟨memo1, hrun⟩ := swap_inv hs
+  have fr := swap_frame p h _ m h' memo1 s hrun (by simp [find_cons])
+  exact kindOKTree_of_installs hwf fr.kids
+    (fun x n => (swap_keys p h [(m, none)] m h' memo1 s hrun (by simp [find_cons]) hnd h hwf hk
+      (fun _ _ _ _ => rfl) (fun _ _ => rfl) (fun _ => rfl) x).2 n)
+    s m (swap_held hs hnd)
+
+/-- a dict is determined by the order of its keys and what it binds under each -/
+theorem dict_ext {α : Type} : ∀ (a b : Dict α), a.map (·.1) = b.map (·.1) → (a.map (·.1)).Nodup →
+    (∀ k, Dict.get? a k = Dict.get? b k) → a = b
+  | [], [], _, _, _ => rfl
+  | [], _ :: _, h, _, _ => by simp at h
+  | _ :: _, [], h, _, _ => by simp at h
+  | (k1, v1) :: r1, (k2, v2) :: r2, hk, hnd, hg => by
+    simp only [List.map_cons, List.cons.injEq] at hk
+    obtain ⟨hk1, hk2⟩ := hk
+    subst hk1
+    have hv : v1 = v2 := by
+      have := hg k1
+      simpa [Dict.get?] using this
+    subst hv
+    simp only [List.map_cons, List.nodup_cons] at hnd
+    congr 1
+    apply dict_ext r1 r2 hk2 hnd.2
+    intro k
+    by_cases hkk : k1 = k
+    · subst hkk
+      have e1 : Dict.get? r1 k1 = none := by
+        cases hh : Dict.get? r1 k1 with
+        | none => rfl
+        | some v =>
+          exfalso; apply hnd.1
+          clear hg hk2 hnd
+          induction r1 with
+          | nil => simp [Dict.get?] at hh
+          | cons e r ih =>
+            obtain ⟨k', v'⟩ := e
+            simp only [Dict.get?] at hh
+            by_cases h' : k' = k1
+            · subst h'; simp
+            · simp only [h', if_false] at hh; simp [ih hh]
+      have e2 : Dict.get? r2 k1 = none := by
+        cases hh : Dict.get? r2 k1 with
+        | none => rfl
+        | some v =>
+          exfalso; apply hnd.1; rw [hk2]
+          clear hg hk2 hnd e1
+          induction r2 with
+          | nil => simp [Dict.get?] at hh
+          | cons e r ih =>
+            obtain ⟨k', v'⟩ := e
+            simp only [Dict.get?] at hh
+            by_cases h' : k' = k1
+            · subst h'; simp
+            · simp only [h', if_false] at hh; simp [ih hh]
+      rw [e1, e2]
+    · have := hg k
+      simpa [Dict.get?, hkk] using this
+
+/-- **round_trip_exact_registries** — a with-block (entry, then the swap back) in which every leaf keeps the kind of its slot
+(the swap back then does too: `swap_back_kind_ok`): afterwards `_parameters` and `_buffers` of every module are *equal* to what they were — the same names in the
+same order binding the same objects (names registered once per dict). With `swap_involutive` (same objects under the same
+names) this is exactness including order: `parameters()`, `state_dict()` and optimizer groups are as before. -/
+theorem round_trip_exact_registries (h h1 h2 : Heap) (m : MId) (p s p' : List (Name × PTree)) (hwf : HeapWF h)
+    (hnd : LeafNodup p) (hk : KindOKTree h m p)
+    (hs : swap h m p = .ok (h1, s)) (hb : swap h1 m s = .ok (h2, p'))
+    (hreg : ∀ x, ((h x).params.map (·.1)).Nodup ∧ ((h x).buffers.map (·.1)).Nodup) (x : MId) :
+    (h2 x).params = (h x).params ∧ (h2 x).buffers = (h x).buffers := by
+  have o1 := swap_keeps_order h h1 m p s hwf hnd hk hs x
+  have hwf1 : HeapWF h1 := by
+    obtain ⟨memo1, hrun⟩ := swap_inv hs
+    exact swap_wf p h _ m h1 memo1 s hrun hwf
+  have o2 := swap_keeps_order h1 h2 m s p' hwf1 (swap_nodup hs hnd)
+    (swap_back_kind_ok h h1 m p s hwf hnd hk hs) hb x
+  obtain ⟨h2', p'', hb', heq⟩ := swap_involutive h h1 m p s hwf hnd hs
+  rw [hb] at hb'
+  injection hb' with hb'; injection hb' with e1 _; subst e1
+  have hkeys : (h2 x).keys2 = (h x).keys2 := o2.trans o1
+  simp only [Mod.keys2, Prod.mk.injEq] at hkeys
+  have hcell := (heq x).1
+  constructor
+  · apply dict_ext _ _ hkeys.1 (by rw [hkeys.1]; exact (hreg x).1)
+    intro k
+    have := hcell k
+    simp only [cellAt, Mod.cell, Cell.mk.injEq] at this
+    exact this.1
+  · apply dict_ext _ _ hkeys.2 (by rw [hkeys.2]; exact (hreg x).2)
+    intro k
+    have := hcell k
+    simp only [cellAt, Mod.cell, Cell.mk.injEq] at this
+    exact this.2.1
 
 /-! ## `return_swap=False` -/
 
